@@ -37,7 +37,7 @@ META = {
 
 A_HOST = "app.example.com"
 SPELL = {
-    ":": [":"], "/": ["/"], "B": ["\\"], "@": ["@"], "?": ["?"], "#": ["#"], ".": ["."], "[": ["["], "]": ["]"],
+    ":": [":"], "/": ["/"], "B": ["\\"], "@": ["@"], "?": ["?"], "#": ["#"], ".": ["."], "-": ["-"], "[": ["["], "]": ["]"],
     "%": ["%2F", "%5C", "%40", "%3A", "%23", "%3F", "%2f", "%5c"],
     "T": ["\t", "\n", "\r"], "S": [" "], "C": ["\x01", "\x1f", "\x00", "\x0b", "\x0c", "\x1b"],
     "H": ["http", "HTTP", "hTtP"], "Hs": ["https", "HTTPS", "HttpS"],
@@ -72,8 +72,10 @@ def klass(role: str, loc) -> str:
     if role == "rt":
         if "B" in loc:
             return "rt-backslash-in-authority"
-        if "a" in loc and "8" in loc:
+        if "a" in loc and "8" in loc and ":" in loc[3:]:
             return "rt-allowlisted-host-other-port"
+        if any(t in loc for t in ("l", "i", "a")):
+            return "rt-lookalike-host"
         return "rt-other"
     k = 0
     while k < len(loc) and loc[k] in ("/", "B", "T", "S", "C"):
@@ -202,10 +204,10 @@ def _run(ctx: Ctx) -> None:
     flat_q = [":", "/", "B", "@", "H", "Hs", "l", "e", "x", "#", "?", "."]
     small = {"FlatAlphabet": S(flat_q + ["T", "S", "%", "8"]), "FlatLen": 2 if quick else 3,
              "TailAlphabet": S(["e", "l", "a", ":", "/", "B", "@", "?", "#", ".", "%", "S", "C", "T", "8", "[", "]", "i"]),
-             "TailLen": 2 if quick else 3, "PrefixSchemes": S(["H", "Hs"]), "PrefixSlashes": S(["/", "B"]), "LeadLen": 2 if quick else 3, "BaseScheme": "H"}
+             "TailLen": 2 if quick else 3, "PrefixSchemes": S(["H", "Hs"]), "PrefixSlashes": S(["/", "B"]), "LeadLen": 2 if quick else 3, "HostLen": 2 if quick else 3, "BaseScheme": "H"}
     sanity = ["KindTotal", "WhitespaceInvisible", "BackslashIsSlash", "FragmentIrrelevant", "PathAbsoluteStays",
               "EscapeIsNoDelimiter"]
-    fams = [f + "(0)" for f in ("RtFlat", "RtTails", "RtNeigh", "RtLead", "OrigFlat", "OrigTails", "OrigNeigh", "OrigLead")]
+    fams = [f + "(0)" for f in ("RtFlat", "RtTails", "RtNeigh", "RtLead", "RtHosts", "OrigFlat", "OrigTails", "OrigNeigh", "OrigLead")]
     for base in (("H",) if quick else ("H", "Hs")):
         enumerate_families(ctx, "data", "Url", [f for f in fams if not (quick and "Neigh" in f)], constants={**small, "BaseScheme": base}, invariants=sanity,
                            name=f"Url:model-sanity(base={base})", emit=False)
@@ -214,11 +216,11 @@ def _run(ctx: Ctx) -> None:
     if quick:
         consts = {"FlatAlphabet": S(flat_q), "FlatLen": 3,
                   "TailAlphabet": S(["e", "l", "a", ":", "/", "B", "@", "8"]), "TailLen": 4,
-                  "PrefixSchemes": S(["H", "Hs"]), "PrefixSlashes": S(["/"]), "LeadLen": 3, "BaseScheme": "H"}
+                  "PrefixSchemes": S(["H", "Hs"]), "PrefixSlashes": S(["/"]), "LeadLen": 3, "HostLen": 3, "BaseScheme": "H"}
     else:
         consts = {"FlatAlphabet": S(flat_q), "FlatLen": 4,
                   "TailAlphabet": S(["e", "l", "a", ":", "/", "B", "@", "?", "#", ".", "%", "S", "T", "8"]), "TailLen": 4,
-                  "PrefixSchemes": S(["H", "Hs"]), "PrefixSlashes": S(["/"]), "LeadLen": 4, "BaseScheme": "H"}
+                  "PrefixSchemes": S(["H", "Hs"]), "PrefixSlashes": S(["/"]), "LeadLen": 4, "HostLen": 4, "BaseScheme": "H"}
     cases = enumerate_families(ctx, "data", "Url", fams, constants=consts, name="Url:enumerate")
     ctx.exhaustive = True
     ctx.rule = ("case = (role, config, token string) enumerated by TLC (all strings up to the bound in each family); "
@@ -429,7 +431,7 @@ def _cookie_half(ctx: Ctx, pk, world: _World, clients, login, callback) -> None:
     ccases = table.enumerate_cases(ctx, "data", "Url", cases="CookieCases", expected="CookieExpected",
                                    invariants=["CookieSane"], name="Url:cookie-table",
                                    constants={"FlatAlphabet": S(["/"]), "FlatLen": 0, "TailAlphabet": S(["/"]), "TailLen": 0,
-                                              "PrefixSchemes": S(["H"]), "PrefixSlashes": S(["/"]), "LeadLen": 0, "BaseScheme": "H"})
+                                              "PrefixSchemes": S(["H"]), "PrefixSlashes": S(["/"]), "LeadLen": 0, "HostLen": 0, "BaseScheme": "H"})
     max_age = int(getattr(pk, "_SESSION_MAX_AGE", 600))
     ages = {"fresh": [0], "mid": [1, max_age // 2], "edge_in": [max_age - 1], "edge": [max_age], "edge_out": [max_age + 1],
             "old": [max_age * 6, 86400 * 30], "future": [-1, -max_age, -86400]}
@@ -512,7 +514,7 @@ def _cookie_half(ctx: Ctx, pk, world: _World, clients, login, callback) -> None:
         ctx.sample({"cookie_case": o["case"], "mutation": o["_l"], "age_s": o["_age"], "observed": o["obs"]})
     bad = table.judge(ctx, "data", "Url", [{"case": o["case"], "obs": o["obs"]} for o in obs], conforms="CookieConforms",
                       constants={"FlatAlphabet": S(["/"]), "FlatLen": 0, "TailAlphabet": S(["/"]), "TailLen": 0,
-                                 "PrefixSchemes": S(["H"]), "PrefixSlashes": S(["/"]), "LeadLen": 0, "BaseScheme": "H"})
+                                 "PrefixSchemes": S(["H"]), "PrefixSlashes": S(["/"]), "LeadLen": 0, "HostLen": 0, "BaseScheme": "H"})
     for idx, clauses in bad:
         o = obs[idx]
         for cl in clauses:
